@@ -96,6 +96,21 @@ theorem rect_zero_iff (a b x y : Rat) (ha : 0 < a) (hb : 0 < b) :
   simp only [Fval, onBorder, min_eq_zero_iff, sqr_le_one_iff x a ha, sqr_le_one_iff y b hb,
     sqr_eq_one_iff x a ha, sqr_eq_one_iff y b hb, or_assoc]
 
+theorem Fval_neg_x (s : Shape) (a b x y : Rat) : Fval s a b (-x) y = Fval s a b x y := by
+  cases s <;> simp [Fval, sqr, neg_div]
+
+theorem Fval_neg_y (s : Shape) (a b x y : Rat) : Fval s a b x (-y) = Fval s a b x y := by
+  cases s <;> simp [Fval, sqr, neg_div]
+
+theorem circle_rot (a b x y c s : Rat) (h : c * c + s * s = 1) :
+    Fval .circle a b (c * x + s * y) (-(s * x) + c * y) = Fval .circle a b x y := by
+  simp only [Fval, sqr_div]
+  have e : (c * x + s * y) * (c * x + s * y) + (-(s * x) + c * y) * (-(s * x) + c * y)
+      = (c * c + s * s) * (x * x + y * y) := by ring
+  have e2 : ∀ p q : Rat, 1 - p / (a * a) - q / (a * a) = 1 - (p + q) / (a * a) := by
+    intro p q; rw [add_div]; ring
+  rw [e2, e2, e, h, one_mul]
+
 theorem F_ok (s : Shape) (a b x y : Rat) (ha : 0 < a) (hb : 0 < b) : F s a b x y = .ok (Fval s a b x y) := by
   have h1 : (a == 0) = false := by simpa using ne_of_gt ha
   have h2 : (b == 0) = false := by simpa using ne_of_gt hb
